@@ -9,6 +9,7 @@ import (
 	"sync"
 	"sync/atomic"
 	"time"
+	vidle "verifharness/internal/idle"
 
 	discovery "github.com/envoyproxy/go-control-plane/envoy/service/discovery/v3"
 
@@ -322,7 +323,28 @@ func serverRun(c *vh.Ctx, i int) {
 				}
 			}
 		}
-		if len(stuck) > 0 && handlersReturned {
+		// a wedged debouncer: accepted notifications are uncommitted although nothing is queued or in flight and the
+		// whole process is parked - decided relative to the runtime's timers (300 reference sleeps of 10x the debounce
+		// time elapse with no change), after the 90 s watchdog already passed.
+		wedged := false
+		if len(pend) == 0 && len(proc) == 0 && ds.InboundUpdates.Load() != ds.CommittedUpdates.Load() {
+			wedged = true
+			in0, co0 := ds.InboundUpdates.Load(), ds.CommittedUpdates.Load()
+			buf := make([]byte, 1<<20)
+			for k := 0; k < 300 && wedged; k++ {
+				time.Sleep(50 * time.Millisecond)
+				p2, q2 := ds.PushQueueStateForVerif()
+				parked, _, _ := vidle.Snapshot(&buf)
+				if !parked || p2 != 0 || q2 != 0 || ds.InboundUpdates.Load() != in0 || ds.CommittedUpdates.Load() != co0 {
+					wedged = false
+				}
+			}
+		}
+		if wedged {
+			c.Violation("server:debouncer-wedged-with-uncommitted-notifications",
+				fmt.Sprintf("control plane stopped making progress: accepted=%d committed=%d, push queue empty, nothing in flight, every goroutine parked for 300 reference timers after the 90 s watchdog",
+					ds.InboundUpdates.Load(), ds.CommittedUpdates.Load()), map[string]any{"case": i})
+		} else if len(stuck) > 0 && handlersReturned {
 			c.Violation("server:dead-connection-holds-queue", fmt.Sprintf("control plane did not quiesce; push queue still holds closed connections %v (pending=%v processing=%v)", stuck, pend, proc),
 				map[string]any{"case": i})
 		} else {
